@@ -446,18 +446,24 @@ Proof.
   { rewrite Hsp. cbn [orb]. destruct pst; try reflexivity. apply (nosub_if c v vaf true Hn). }
   rewrite Hs, E1, E2, E3. reflexivity.
 Qed.
-(** the delivery phase at a counter where the look-ahead is off *)
+(** the delivery phase, given what the counter correction answers *)
+Lemma pos_deliver_at (v : bytes) (rest : list bytes) pst pos pc' vaf st a :
+  match pst with PSOpt _ => False | _ => True end -> pc_part c rest (mkL pst pos vaf false) = ROk pc' -> get_pos c pc' = Some a ->
+  check_terminator a v = false -> a_last a = false -> a_tva a = false ->
+  phase2 c (parse_loop c rest) v rest (mkL pst pos vaf false) st = pos_step_k c a v rest pc' st.
+Proof.
+  intros Hp Hpc Hg Hterm Hlast Htva. unfold phase2. cbn [l_trailing l_pst].
+  assert (E : pos_part c (parse_loop c rest) v rest (mkL pst pos vaf false) st = pos_step_k c a v rest pc' st).
+  { unfold pos_part. rewrite Hpc. cbn [rbind]. cbn [l_trailing l_pst l_vaf l_pos].
+    rewrite Hg, Hlast, Htva. cbn [andb orb]. rewrite Hterm. unfold pos_step_k. reflexivity. }
+  destruct pst; [exact E|contradiction|exact E].
+Qed.
+(** ... at a counter where the look-ahead is off *)
 Lemma pos_deliver (v : bytes) (rest : list bytes) pst pos vaf st a :
   match pst with PSOpt _ => False | _ => True end -> lookahead_off pos -> get_pos c pos = Some a ->
   check_terminator a v = false -> a_last a = false -> a_tva a = false ->
   phase2 c (parse_loop c rest) v rest (mkL pst pos vaf false) st = pos_step_k c a v rest pos st.
-Proof.
-  intros Hp Hlow Hg Hterm Hlast Htva. unfold phase2. cbn [l_trailing l_pst].
-  assert (E : pos_part c (parse_loop c rest) v rest (mkL pst pos vaf false) st = pos_step_k c a v rest pos st).
-  { unfold pos_part. rewrite (Hlow vaf rest pst). cbn [rbind]. cbn [l_trailing l_pst l_vaf l_pos].
-    rewrite Hg, Hlast, Htva. cbn [andb orb]. rewrite Hterm. unfold pos_step_k. reflexivity. }
-  destruct pst; [exact E|contradiction|exact E].
-Qed.
+Proof. intros Hp Hlow. apply pos_deliver_at; [exact Hp|apply Hlow]. Qed.
 
 Lemma pos_branch_x (v : bytes) (rest : list bytes) pst pos vaf st a :
   match pst with PSOpt _ => False | _ => True end ->
